@@ -85,10 +85,11 @@ def run(ck, facts, tier):
     des = cc.deserialize_entries(facts)
     ck.check(r0, "deserialize-impls", len(des) >= 60, "only %d Deserialize impls found" % len(des), sample="%d in-crate Deserialize::deserialize bodies are entries" % len(des))
 
-    r4 = ck.rule("R20.4", "dual::enums::Number never instantiates a type parameter of a local generic function, "
+    r4 = ck.rule("R20.4", "in functions reachable from the entry points dual::enums::Number never instantiates a type parameter of a local generic function, "
                           "so the refusing (Dual,Dual2) arms of its operators are unreachable from the generic fill-in/solver", floor=1)
-    ck.check(r4, "instantiations", not P.number_hits, "Number flows into a generic helper: %s" % (P.number_hits[:2],),
-             sample="no call site of a local generic fn mentions dual::enums::Number among its type arguments")
+    hits = [h for h in P.number_hits if h[0] in R]
+    ck.check(r4, "instantiations", not hits, "Number flows into a generic helper inside a function reachable from an entry point: %s" % (hits[:2],),
+             sample="no call site of a local generic fn in the %d reachable functions mentions dual::enums::Number among its type arguments (%d elsewhere)" % (len(R), len(P.number_hits)))
 
     r1 = ck.rule("R20.1", "every panic edge (MIR Assert, unwrap/expect/panic!/assert!, indexing and other aborting externals) in a function "
                           "reachable from an entry point is covered by the reviewed table (rules/c20_sites.json): per function (with its closures and the private "
@@ -131,10 +132,40 @@ def run(ck, facts, tier):
     ck.extra["panic_sites"] = nsites
     ck.extra["site_table_rows"] = len(table)
 
-    # ---- S20.2
+    loader_rule(ck, facts, P)
+
+    # ---- R20.3
+    r3 = ck.rule("R20.3", "struct-literal construction of a shape-constrained type occurs only in the reviewed constructor/operator functions", floor=20)
+    for adt, allowed in LITERAL_OK.items():
+        for fn, ln in struct_literal_sites(facts, adt):
+            why = next((w for rx, w in allowed if re.search(rx, fn)), None)
+            rec = facts.fn(fn)
+            ck.check(r3, "%s@%s" % (adt.split("::")[-1], cc.family(fn)), why is not None,
+                     "`%s { .. }` constructed outside the reviewed constructors (shape invariant not established here)" % adt,
+                     "%s:%s" % (rec["file"] if rec else "?", ln), sample=why)
+
+    shape_rule(ck, facts)
+    from rules import deps
+    deps.include_panic_guards(ck, facts, tier)
+    ck.not_decided += [
+        "aborts inside dependencies on inputs outside the documented ranges (dates beyond chrono's range, > 2^63 elements)",
+        "allocation failure; stack depth of the recursive FX fill-in and the B-spline recursion",
+        "the class-I/R/L reasons in rules/c20_sites.json are reviewed by reading the code; the machine check is table membership + control depth",
+        "external callees are classified by a denylist of aborting std/ndarray/chrono/indexmap APIs (lib/cfg.py PANICKING_EXTERNAL); "
+        "an aborting external outside that list would be missed",
+    ]
+    ck.trusted += ["rules/c20_sites.json (reviewed site table)", "lib/cfg.py PANICKING_EXTERNAL denylist"]
+
+
+def loader_rule(ck, facts, P=None, only=None):
+    """S20.2; `only` restricts to some types (used by C09 for FXRates: quote sets that try_new refuses must not come in through the loader)."""
+    if P is None:
+        P = cc.Prog(facts)
     r2 = ck.rule("S20.2", "a type whose constructor validates a shape invariant deserialises through serde(try_from = <data model>); "
-                          "the TryFrom conversion has no panic edge and either calls the validating constructor or returns Err on a guard", floor=len(SHAPED))
+                          "the TryFrom conversion has no panic edge and either calls the validating constructor or returns Err on a guard", floor=len(SHAPED) if only is None else len(only))
     for adt, (inv, ctor) in SHAPED.items():
+        if only is not None and adt not in only:
+            continue
         a = facts.astadt.get(adt)
         if a is None:
             ck.fail(r2, adt, "type not found in the expanded AST")
@@ -166,27 +197,6 @@ def run(ck, facts, tier):
         else:
             ck.ok(r2, adt, sample="serde(try_from=%s) -> %s: no panic edge, validates `%s`" % (model, conv[0], inv))
 
-    # ---- R20.3
-    r3 = ck.rule("R20.3", "struct-literal construction of a shape-constrained type occurs only in the reviewed constructor/operator functions", floor=20)
-    for adt, allowed in LITERAL_OK.items():
-        for fn, ln in struct_literal_sites(facts, adt):
-            why = next((w for rx, w in allowed if re.search(rx, fn)), None)
-            rec = facts.fn(fn)
-            ck.check(r3, "%s@%s" % (adt.split("::")[-1], cc.family(fn)), why is not None,
-                     "`%s { .. }` constructed outside the reviewed constructors (shape invariant not established here)" % adt,
-                     "%s:%s" % (rec["file"] if rec else "?", ln), sample=why)
-
-    shape_rule(ck, facts)
-    from rules import deps
-    deps.include_panic_guards(ck, facts, tier)
-    ck.not_decided += [
-        "aborts inside dependencies on inputs outside the documented ranges (dates beyond chrono's range, > 2^63 elements)",
-        "allocation failure; stack depth of the recursive FX fill-in and the B-spline recursion",
-        "the class-I/R/L reasons in rules/c20_sites.json are reviewed by reading the code; the machine check is table membership + control depth",
-        "external callees are classified by a denylist of aborting std/ndarray/chrono/indexmap APIs (lib/cfg.py PANICKING_EXTERNAL); "
-        "an aborting external outside that list would be missed",
-    ]
-    ck.trusted += ["rules/c20_sites.json (reviewed site table)", "lib/cfg.py PANICKING_EXTERNAL denylist"]
 
 
 def absorb_helpers(P, R, fams, tabfams):
